@@ -2,8 +2,7 @@ import LenaModel.Model.C15
 /-! # C15 — specification vocabulary (reference semantics)
 
 The executable definitions the property theorems (`LenaModel/Props/C15.lean`) are stated with.  None of
-them is used by the model of the code (`Model/C15.lean`) or by the driver: they are what the model is
-proved equal to.
+them is used by the model of the code (`Model/C15.lean`): they are what the model is proved equal to.
 
 * Part 1: `sem` — the reference semantics of a selector specification, defined on the specification alone
   (no selector objects); `semB` — its boolean form (the wording of the property); `valAt` — the sub-context
@@ -11,7 +10,13 @@ proved equal to.
 * Part 2: `polarity` — the longest-listed-prefix rule; `sel` — its recursive form; `keepV`/`keepL` — the part of
   a context selected by a predicate on key paths; `atPath`, `seen`, `AgreeOn` — what two contexts are
   compared on; `WFV` — slot vectors over one key alphabet; `Disjoint` — no path listed twice.
-* Part 3: `groupsOf` — the reference partition.  No imports except the model. -/
+  `selC` / `flipWalk` — the rule the code implements for all accepted key sets (overlaps included);
+  `ExtraAt` / `rejectsB` — improper nesting (what `make_include_exclude_tree` rejects); `disjointB`, `agreeOnB`,
+  `wfV`, `allPathsV` — decided forms, run by the driver.
+* Part 3: `groupsOf`, `groupsOfG` — the reference partitions.  No imports except the model.
+
+Every definition here is executed by `drivers/C15.lean` on the generated cases and compared with the
+implementation or with an independent Python reference (`harness/props/c15.py`, `compare`). -/
 
 namespace Lena.C15
 
